@@ -255,10 +255,12 @@ def run_harness(scratch, ob, logdir, cap_scale=1.0):
         cmd += ob["flags"].split()
     cmd += CBMC_TAIL
     cap = int(ob["cap"] * cap_scale)
-    mem = min(int(ob.get("mem", MEM_GB)), MEM_BUDGET_GB)
+    # mem=<GB> is the harness's expected resident size (default 3): that much of the memory budget is
+    # reserved while it runs; the hard address-space cap is more generous (at least MEM_GB)
+    mem = min(int(ob.get("mem", 3)), MEM_BUDGET_GB)
     BUDGET.acquire(mem)
     try:
-        rc, timed_out, wall = run_cmd(cmd, scratch.crate_for(ob.get("profile", "model")), cap, log, mem_gb=mem)
+        rc, timed_out, wall = run_cmd(cmd, scratch.crate_for(ob.get("profile", "model")), cap, log, mem_gb=max(MEM_GB, mem + 6))
     finally:
         BUDGET.release(mem)
     scratch.release(slot)
@@ -279,6 +281,12 @@ def run_harness(scratch, ob, logdir, cap_scale=1.0):
         r["allowed"] = [f for f in r["failed"] if any(a in f["desc"] for a in allow)]
         r["failed"] = [f for f in r["failed"] if not any(a in f["desc"] for a in allow)]
         real = [f for f in r["failed"] if ".unwind." not in f["name"]]
+        # an assertion of an environment MODEL firing (capacity / bound of a model exceeded) says the harness
+        # left the stated bound; it is never evidence about jammdb
+        bound = [f for f in real if "outside the stated bound" in f["desc"] or "outside the model" in f["desc"] or "would deadlock" in f["desc"]]
+        if bound and len(bound) == len(real):
+            r["verdict"] = "model_bound"
+            return r
         if r["oom"] and not real:
             r["verdict"] = "oom"
         elif not r["failed"] and r["allowed"] and not r["undetermined"]:
